@@ -287,7 +287,11 @@ class WebSocket:  # pragma: no cover
         event = await self.asgi_receive()
         if event['type'] != 'websocket.receive':
             raise OSError()
-        return event.get('bytes') or event.get('text')
+        data = event.get('bytes')
+        if data is None:
+            # an empty binary frame is not the same as no binary data
+            data = event.get('text')
+        return data
 
 
 _async = {
